@@ -102,7 +102,12 @@ class Scenario:
     def notify(self, ev, lang):
         self.rec.reset()
         data = EventData(LANG[lang], KINDS[ev], Token(0))
-        ret = self.em.notify(data)
+        try:
+            ret = self.em.notify(data)
+        except Exception:
+            # notify must return the union of the flags; an exception escaping it is recorded as the impossible word -1, which no
+            # union equals, so the contract rejects the step (the handlers invoked up to that point are judged as usual)
+            ret = -1
         return {"op": "notify", "ev": ev, "lang": lang, "invoked": list(self.rec.invoked), "rets": list(self.rec.rets),
                 "seen": list(self.rec.seen), "outs": list(self.rec.outs), "ret": int(ret),
                 "final_in": tok(data.in_data), "final_out": tok(data.out_data)}
